@@ -246,6 +246,9 @@ func genBigCase(c *Ctx, stream string, idx int) *BigCase {
 	if idx%2 == 0 {
 		bc.Mode = "many-terms"
 		k := 65 + r.Intn(96)
+		if c.Thorough() && idx%8 == 0 {
+			k = 200 + r.Intn(1300) // XL: thresholds far beyond 64 / 128 / 256
+		}
 		bc.Terms = distinctTerms(u, r, k, r.Chance(1, 2))
 		// shape: one dominant operator; sometimes small groups of the other operator (expansion stays small)
 		dom, other := "and", "or"
@@ -297,6 +300,9 @@ func genBigCase(c *Ctx, stream string, idx int) *BigCase {
 		bc.Terms = randomPool(u, r, k)
 		bc.Tree = gen.RandomTree(r, r.Intn(gen.NumShapes), k+r.Intn(4), k)
 		n := 256 + r.Intn(450)
+		if c.Thorough() && idx%8 == 1 {
+			n = 1000 + r.Intn(4000) // XL
+		}
 		for len(bc.Allowed) < n {
 			bc.Allowed = append(bc.Allowed, gen.Term{ID: r.Pick(u.Active)})
 			if r.Chance(1, 6) {
@@ -341,7 +347,9 @@ type bigString struct {
 
 // bigStrings builds large inputs: sizes beyond every buffer / batch / index threshold one might plausibly choose
 // (64 KiB tokens, 10^4 nesting levels, 512+ ids per expression), valid by construction, plus one-character corruptions.
-func bigStrings(u *gen.Universe, r *gen.Rand) []bigString {
+func bigStrings(u *gen.Universe, r *gen.Rand) []bigString { return bigStringsTier(u, r, false) }
+
+func bigStringsTier(u *gen.Universe, r *gen.Rand, xl bool) []bigString {
 	ids := func(n int, mutateTail int) []string {
 		out := make([]string, n)
 		for i := range out {
@@ -388,5 +396,16 @@ func bigStrings(u *gen.Universe, r *gen.Rand) []bigString {
 	}
 	add("or-later-chain-600", strings.Join(l, " AND "), true, true)
 	add("or-later-chain-600-unknown-last", strings.Join(l, " AND ")+" AND (FOO)", false, true)
+	if xl {
+		add("xl-nest-300000", nest(300000), true, false)
+		add("xl-licenseref-1MiB", "LicenseRef-"+strings.Repeat("x", 1<<20), true, false)
+		add("xl-chain-6000-and", strings.Join(ids(6000, 1000), " AND "), true, true)
+		add("xl-chain-6000-or-unknown-last", strings.Join(ids(6000, 0), " OR ")+" OR nope", false, true)
+		var gx []string
+		for i := 0; i < 100000; i++ {
+			gx = append(gx, "("+u.ActPlain[i%len(u.ActPlain)]+")")
+		}
+		add("xl-tight-groups-100000", strings.Join(gx, "OR"), true, true)
+	}
 	return out
 }
